@@ -336,10 +336,13 @@ class Interp:
         v = node.value
         if not isinstance(v, (ast.DictComp, ast.ListComp, ast.SetComp)) or len(v.generators) != 1:
             return None
-        if not any(isinstance(n, ast.Await) for n in ast.walk(v)) and not v.generators[0].ifs:
-            return None
         g = v.generators[0]
-        if not any(isinstance(n, ast.Await) for n in ast.walk(v)) and not self._concrete_iter_hint(g.iter):
+        has_await = any(isinstance(n, ast.Await) for n in ast.walk(v))
+        cur = getattr(self, "_cur", None)
+        builds = cur is not None and not isinstance(v, ast.DictComp) and self._elt_needs_loop(v.elt, g, cur[1])
+        if not has_await and not builds and not g.ifs:
+            return None
+        if not has_await and not builds and not self._concrete_iter_hint(g.iter):
             return None
         self._comp_n = getattr(self, "_comp_n", 0) + 1
         tmp = f"$comp{self._comp_n}"
@@ -364,6 +367,23 @@ class Interp:
             ast.copy_location(s_, node)
             ast.fix_missing_locations(s_)
         return stmts
+
+    def _elt_needs_loop(self, elt: ast.AST, g: ast.comprehension, ctx: Ctx) -> bool:
+        tname = g.target.id if isinstance(g.target, ast.Name) else None
+        for n in ast.walk(elt):
+            if not isinstance(n, ast.Call):
+                continue
+            f = n.func
+            if isinstance(f, ast.Attribute) and isinstance(f.value, ast.Name) and f.value.id == tname and f.attr not in ("upper", "lower", "decode", "encode", "hex", "strip", "rstrip", "lstrip", "format"):
+                return True
+            if isinstance(f, (ast.Name, ast.Attribute)):
+                try:
+                    r = self.prog.resolve_expr(ctx.module, f)
+                except Exception:  # noqa: BLE001
+                    r = None
+                if r and r[0] in ("class", "func") and not (r[0] == "class" and r[1].enum is not None):
+                    return True
+        return False
 
     def _concrete_iter_hint(self, it: ast.expr) -> bool:
         """Filtered comprehension: unroll into a loop only over an enum class / literal / range (concrete items);
@@ -543,6 +563,35 @@ class Interp:
                 return out
         raise AnalysisError(f"while loop does not terminate within the unrolling bound at {ctx.loc(node)}")
 
+    def _iter_root(self, itv: Term) -> Term:
+        while isinstance(itv, tuple) and itv and itv[0] == "lazymap":
+            itv = itv[2]
+        return itv
+
+    def _iter_elem(self, itv: Term, k: int, s1: State, ctx: Ctx, node: ast.AST) -> Term:
+        """k-th element (k = 0, 1, ...) of a symbolic iterable."""
+        if itv[0] == "lazymap":
+            inner = self._iter_elem(itv[2], k, s1, ctx, node)
+            return self.call(itv[1], [inner], {}, s1, ctx, node)
+        base = self.describe(itv, s1) if itv[0] == "obj" else T.show(itv)
+        elem: Term = ("sym", f"{base}[{k}]", ("elemof", itv))
+        if itv[0] == "slicelist":
+            b0 = itv[1]
+            et = b0[2][1]
+            if len(b0[2]) > 2 and b0[2][2] == "distinct":
+                et = ("distinct", et, b0[1])
+            elem = self.materialise(("sym", f"{b0[1]}[{k + itv[2]}]", et), s1)
+        elif itv[0] == "chunks":
+            elem = T.slice_seq(itv[1], k * itv[2], (k + 1) * itv[2])
+        elif itv[0] == "app" and itv[1] in ("range", "builtins.range") and len(itv) == 5 and is_c(itv[2]) and is_c(itv[4]) and isinstance(itv[2][1], int) and isinstance(itv[4][1], int):
+            elem = c(itv[2][1] + k * itv[4][1])
+        elif itv[0] == "sym" and isinstance(itv[2], tuple) and itv[2] and itv[2][0] in ("list", "set"):
+            et = itv[2][1]
+            if len(itv[2]) > 2 and itv[2][2] == "distinct":
+                et = ("distinct", et, itv[1])
+            elem = self.materialise(("sym", f"{base}[{k}]", et), s1)
+        return elem
+
     def st_For(self, node: ast.For, st: State, ctx: Ctx) -> List[Tuple[State, Any]]:
         itv = self.eval(node.iter, st, ctx)
         out: List[Tuple[State, Any]] = []
@@ -570,6 +619,8 @@ class Interp:
                     out.extend(self.exec_block(node.orelse, s1, ctx) if node.orelse else [(s1, None)])
                 continue
             # symbolic iterable: 0 .. unroll iterations, fresh element symbols
+            outer = itv
+            itv = self._iter_root(outer)   # length guards are keyed on the collection the items finally come from
             base = self.describe(itv, s) if itv[0] == "obj" else T.show(itv)
             live = [s]
             for k in range(self.unroll + 1):
@@ -596,20 +647,7 @@ class Interp:
                     if itv[0] == "slicelist" and itv[3] is not None and k >= itv[3] - itv[2]:
                         continue  # the slice has at most hi-lo elements
                     s1.pc.append(("iterge", itv, k + 1))
-                    elem = ("sym", f"{base}[{k}]", ("elemof", itv))
-                    if itv[0] == "slicelist":
-                        b0 = itv[1]
-                        et = b0[2][1]
-                        if len(b0[2]) > 2 and b0[2][2] == "distinct":
-                            et = ("distinct", et, b0[1])
-                        elem = self.materialise(("sym", f"{b0[1]}[{k + itv[2]}]", et), s1)
-                    elif itv[0] == "chunks":
-                        elem = T.slice_seq(itv[1], k * itv[2], (k + 1) * itv[2])
-                    elif itv[0] == "sym" and isinstance(itv[2], tuple) and itv[2] and itv[2][0] in ("list", "set"):
-                        et = itv[2][1]
-                        if len(itv[2]) > 2 and itv[2][2] == "distinct":
-                            et = ("distinct", et, itv[1])
-                        elem = self.materialise(("sym", f"{base}[{k}]", et), s1)
+                    elem = self._iter_elem(outer, k, s1, ctx, node)
                     self.assign(node.target, elem, s1, ctx)
                     s1.events.append(Event("iter", base, (c(k),), (), ctx.loc(node), ctx.fi.key if ctx.fi else "", pc_len=len(s1.pc)))
                     for s2, sig2 in self.exec_block(node.body, s1, ctx):
@@ -954,17 +992,65 @@ class Interp:
             return o.value
         val: Optional[Term] = None
         for o in reversed(rets):
-            if isinstance(o.value, tuple) and o.value and o.value[0] == "obj" and o.value[1] not in st.heap:
-                return top("callee returns distinct fresh objects on several paths")
+            ov = o.value
+            if isinstance(ov, tuple) and ov and ov[0] == "obj" and ov[1] not in st.heap:
+                # a fresh object returned on one of several paths: re-create it in the caller's heap
+                ov2 = self._transplant(ov, o.state, st, {})
+                if ov2 is None:
+                    return top("callee returns distinct fresh objects on several paths")
+                ov = ov2
             cond = conj(o.state.pc[base_pc:])
             if val is None:
-                val = o.value
+                val = ov
             else:
-                val = ite(cond, o.value, val)
+                val = ite(cond, ov, val)
         for o in rets:
             st.counters.update(o.state.counters)
         assert val is not None
         return val
+
+    def _transplant(self, v: Term, src: State, dst: State, seen: Dict[int, Term]) -> Optional[Term]:
+        """Copy the heap objects reachable from v (allocated by a callee path) into dst under new identities."""
+        if not isinstance(v, tuple) or not v:
+            return v
+        if v[0] == "obj":
+            oid = v[1]
+            if oid in dst.heap and dst.heap[oid] is src.heap.get(oid):
+                return v
+            if oid in seen:
+                return seen[oid]
+            ho = src.heap.get(oid)
+            if ho is None or len(seen) > 64:
+                return None
+            cp = ho.copy()
+            ref = dst.alloc(cp)
+            seen[oid] = ref
+            for k, x in list(cp.fields.items()):
+                y = self._transplant(x, src, dst, seen)
+                if y is None:
+                    return None
+                cp.fields[k] = y
+            new_items = []
+            for it in cp.items:
+                if isinstance(it, tuple) and len(it) == 2 and all(isinstance(z, tuple) for z in it) and ho.kind == "dict":
+                    a, b = self._transplant(it[0], src, dst, seen), self._transplant(it[1], src, dst, seen)
+                    if a is None or b is None:
+                        return None
+                    new_items.append((a, b))
+                else:
+                    y = self._transplant(it, src, dst, seen)
+                    if y is None:
+                        return None
+                    new_items.append(y)
+            cp.items = new_items
+            return ref
+        if v[0] in ("tuple", "clist", "cset"):
+            xs = [self._transplant(x, src, dst, seen) for x in v[1]]
+            return None if any(x is None for x in xs) else (v[0], tuple(xs))
+        if v[0] == "ite":
+            a, b = self._transplant(v[2], src, dst, seen), self._transplant(v[3], src, dst, seen)
+            return None if a is None or b is None else ("ite", v[1], a, b)
+        return v
 
     # ------------------------------------------------------------------
     def module_const_value(self, mod: Module, name: str) -> Optional[Term]:
@@ -1457,6 +1543,13 @@ class Interp:
             st.env = saved
             return st.alloc(HeapObj("list", None, {}, res))
         # symbolic iterable: keep as a mapped collection
+        if self._elt_needs_loop(node.elt, g, ctx):
+            # the element expression calls repository code (constructors, methods of the element): applied per
+            # item when the collection is iterated, not once on a placeholder
+            lam0 = ast.Lambda(args=ast.arguments(posonlyargs=[], args=[ast.arg(arg=_single_name(g.target, ctx))], kwonlyargs=[], kw_defaults=[], defaults=[]), body=node.elt)
+            ast.copy_location(lam0, node)
+            ast.fix_missing_locations(lam0)
+            return ("lazymap", ("lambda", lam0, None, ctx.fi, dict(st.env)), itv)
         lam = ("lambda", ast.Lambda(args=ast.arguments(posonlyargs=[], args=[ast.arg(arg=_single_name(g.target, ctx))], kwonlyargs=[], kw_defaults=[], defaults=[]), body=node.elt), None, ctx.fi, dict(st.env))
         # canonical element term: the comprehension body applied to the collection's element symbol
         return ("mapobj", self.lib.lambda_norm(self, lam, itv, st, ctx, node), itv, "list")
@@ -1608,6 +1701,27 @@ def _atoms(cond: Term) -> List[Term]:
             out.extend(_atoms(x))
         return out
     return [cond]
+
+
+def unlift(v: Term) -> Any:
+    """Inverse of Interp.lift for state-independent values."""
+    t = v[0]
+    if t == "c":
+        return v[1]
+    if t == "enum":
+        return v[1]
+    if t == "tuple":
+        return tuple(unlift(x) for x in v[1])
+    if t == "clist":
+        return [unlift(x) for x in v[1]]
+    if t == "cset":
+        return frozenset(unlift(x) for x in v[1])
+    if t == "cdict":
+        return {unlift(k): unlift(x) for k, x in v[1]}
+    if t == "seq" and all(a[0] == "L" for a in v[2]):
+        txt = "".join(a[1] for a in v[2])
+        return txt if v[1] == "s" else (txt.encode() if v[1] == "b" else bytes.fromhex(txt))
+    raise ValueError(f"not a constant: {v[0]}")
 
 
 def decided_by(pc: List[Term], cond: Term) -> Optional[bool]:
